@@ -63,7 +63,7 @@ prop("C08", "exploration",
      ["range proofs are generated at the bulletproof size only (675 bytes, real or arbitrary content): other lengths are not proofs a wallet can hold and the binary reader pads to that size",
       "slatepack payloads are bounded to 100 kB (grin_core BinReader refuses larger single reads); ill-typed combinations (feature arguments on a plain kernel, invalid FeeFields) are left to C09",
       "the transaction inside a slate is compared as (inputs, outputs with features and proofs, offset); the kernel is recomputed by design"],
-     required_hist=["field:feat=2", "field:feat=3", "field:proof=with-rsig", "field:coms=some", "field:recipients=3", "field:record:txlog", "field:record:context"])
+     required_hist=["field:feat=2", "field:feat=3", "field:proof=with-rsig", "field:coms=some", "field:recipients=3", "field:record:txlog", "field:record:context", "field:record:slatepack-encrypted"])
 
 prop("C10", "exploration",
      "slates from the C08 generator packed for 0-4 recipients with/without sender; per message: every recipient key must recover slate and "
@@ -79,7 +79,7 @@ prop("C10", "exploration",
      {"quick": 100000, "thorough": 1000000},
      ["'no other key' is tested for the other pool keys, random keys, other derivation indices and the other wallet, not for all keys",
       "unencrypted binary/JSON slatepacks carry no integrity protection and are outside the statement (only armored text is)"],
-     required_hist=["recipient-decrypt-ok", "non-recipient-refused", "cleartext-searches", "edit-rejected:armored:transpose", "edit-rejected:binary:bitflip", "api:other-index-refused"])
+     required_hist=["recipient-decrypt-ok", "non-recipient-refused", "cleartext-searches", "edit-rejected:armored:transpose", "edit-rejected:binary:bitflip", "api:other-index-refused", "api:recipient-index-among-others-decrypts"])
 
 prop("C09", "exploration",
      "27 decoder entry points (armor, slatepack deser+decrypt+get_slate, V4 JSON/binary, slatepack JSON/binary, payment proof / InitTxArgs / "
@@ -135,7 +135,7 @@ prop("C15", "exploration", HIST_RULE + "; C15 monitor M-keypath: per wallet a ma
       {"name": "c15r", "cmd": "c15r", "shards": {"quick": 2, "thorough": 8}, "crash_is_violation": True}],
      {"quick": 3000, "thorough": 40000},
      ["output records are observed after every step (a record created and deleted inside one wallet call is not seen)"],
-     required_hist=["op:receive", "op:lock", "op:mine", "op:restart", "restore:next-path-beyond-chain"])
+     required_hist=["op:receive", "op:lock", "op:mine", "op:restart", "restore:next-path-beyond-chain", "op:coinbase-request-naming-a-confirmed-coinbase:ok"])
 
 prop("C06", "fault_enumeration",
      "scenarios send (init, lock, receive, finalize, cancel), invoice (issue, process, lock, foreign finalize), late-locked send (init, receive, "
